@@ -17,6 +17,8 @@ import Frp.Engines.Peer
 import Frp.Engines.RegRace
 import Frp.Engines.Sess
 import Frp.Engines.Crash
+import Frp.Engines.Stack
+import Frp.Engines.E2e
 /-! Registry of driver engines (one line per engine). -/
 namespace Frp.Engines
 open Frp.Proto
@@ -41,5 +43,7 @@ def all : List (String × Engine) :=
   , ("regrace", regrace)
   , ("sess", sess)
   , ("crash", crash)
+  , ("stack", stack)
+  , ("e2e", e2e)
   ]
 end Frp.Engines
